@@ -110,7 +110,6 @@ package codegen
 //@       requires* wire.name: elem == elemNameSpec(ma, name)
 //@       requires* required.flag: required == isReqSpec(ma.AttributeExpr, name)
 //@       modifies all
-//@   modifies all
 
 // ---- validation code: format constants (C01) -------------------------------------------------
 // The validation code emitted for Format(...) refers to a constant of the runtime package by name; the name
